@@ -56,11 +56,10 @@ theorem fhdr_rt (hd : Bytes) (prev : FHDR) (h : FHDR) (hl : hd.length = 7 + ((hd
   have h7 : ¬ hd.length < 7 := by omega
   simp only [FHDR.dec, h7, if_false] at hdec
   cases ok_inj hdec
-  have hopts : encItems (if hd.length > 7 then [Item.data (hd.drop 7)] else prev.fOpts) = ok (hd.drop 7) := by
+  have hopts : encItems (if hd.length > 7 then [Item.data (hd.drop 7)] else []) = ok (hd.drop 7) := by
     split
     · simp [encItems, Item.enc]
-    · rw [hprev]
-      have : hd.drop 7 = [] := by apply List.drop_eq_nil_of_le; omega
+    · have : hd.drop 7 = [] := by apply List.drop_eq_nil_of_le; omega
       rw [this]; rfl
   simp only [FHDR.enc, hopts, Outcome.ok_bind]
   have hlen : (hd.drop 7).length = ((hd.getD 4 0) &&& 0x0f#8).toNat := by rw [List.length_drop]; omega
